@@ -10,6 +10,26 @@ E3 = "E3 cooperative scheduler + preemption-bounded DFS (harness/vsched, harness
 
 # id -> (level, engine, technique, text, note, design_ref)
 CHECKS = {
+    "C10": ("exploration", E2,
+            "bounded-exhaustive enumeration of token sequences, short byte strings, operand-type mixes and token mutations; oracle = no panic + independent grammar recogniser + evaluation on three datasets",
+            "ALL token sequences up to length 3 (thorough: 4) over 44 lexemes (one or two per token class, identifiers of every symbol kind, three unrecognised characters) with and without blanks, all byte strings up to length 3 over 44 bytes, every symbol-kind x operator x literal-type mix, and single-token mutations of valid sentences are parsed; nothing may panic, everything accepted must be a sentence of ZitiQl.g4 according to an independently written recogniser (so unrecognised characters are never silently dropped) and must evaluate on an empty store, an all-null entity and a populated store without panicking; parse sequences over pooled lexer/parser instances must not leak state.",
+            "The recogniser (maximal-munch lexer + memoised backtracking matcher of the parser rules) is trusted as the grammar oracle; only 'accepted implies in grammar' is demanded. Debug-parse diagnostic counts are not part of the property.",
+            "DESIGN.md §4 C10"),
+    "C11": ("exploration", E2,
+            "exhaustive enumeration of all strings up to length 4/5 over an 11-character alphabet and all lexer-valid literal bodies up to length 5/6; oracle = the string itself / single-pass unescaper",
+            "For ALL strings over {a,n,t,backslash,quote,space,LF,TAB,CR,FF,e-acute} up to the bound, the canonical literal must denote exactly the string in ParseZqlString and as operand of =, !=, in, not in, contains, not contains (evaluated against the string and near misses); all lexer-valid escape spellings up to the bound are compared with a single-pass unescaper, which also establishes that distinct strings never share a denotation.",
+            "String length <= 4 (quick) / 5 (thorough).",
+            "DESIGN.md §4 C11"),
+    "C12": ("exploration", E2,
+            "exhaustive enumeration of boolean skeletons (all and/or tree shapes up to 4/5 atoms, up to 2 negations) x three parenthesisation styles x all 2^n assignments; plus keyword-case/whitespace re-spellings on a real store",
+            "Every and/or/not skeleton up to the bound is printed with only the parentheses the documented precedence requires, fully parenthesised and with redundant parentheses; the parsed query's truth table over all assignments must equal the skeleton's. Keyword and word-operator case variants, whitespace variants and redundant outer parentheses must not change results (including the negated word operators keeping their negation).",
+            "Bare prefix `not` (without parentheses) is not compared: the property does not fix its binding strength.",
+            "DESIGN.md §4 C12"),
+    "C20": ("exploration", E2,
+            "enumeration of typed queries covering every typed AST node kind (measured by a visitor) x ALL public/non-public assignments of the symbols each query mentions",
+            "Every query of the C01/C02 generators (each typed node kind produced at least once - the run fails as vacuous otherwise) is validated under every public/non-public assignment of its symbols on freshly wired stores; accept iff all mentioned symbols are public (map elements follow the map), and a rejection must name a non-public symbol of the query.",
+            "Sub-queries only over the self-referential set (so 'public for the store' is unambiguous); id and fk symbols are always public (no API to register them otherwise).",
+            "DESIGN.md §4 C20"),
     "C02": ("exploration", E2,
             "bounded-exhaustive enumeration of sort specifications x skip/limit x predicates x all assignments of the sort fields; differential against a reference sorter/pager over four query routes",
             "All sort specifications of 0..2 fields (thorough: every pair, 3 and 5 fields), every direction spelling, 56 skip/limit combinations (absent, none, negative, 0, beyond the end) and four predicate shapes are run on ALL assignments of the sort fields over {null,v1,v2} on 4 entities; ids, order and total count from QueryIds, QueryIdsC on a re-used query, QueryWithCursorC over an index cursor and IterateIds must equal the reference.",
